@@ -675,13 +675,17 @@ C20_RULE = ('rapidcheck-generated programs: container type (9: vector, SmallVect
             'distinct = distinct (container, state, per-thread programs)')
 
 
-def race_unit():
-    return D.Unit('race_c20', 'targets/race_c20.cpp', dict(NONSTD), std='17', kind='tsan', engine=True)
+def race_unit(std='17'):
+    name = 'race_c20' if std == '17' else 'race_c20_cxx%s' % std
+    d = dict(NONSTD)
+    d['VF_RACE_NAME'] = '"%s"' % name
+    return D.Unit(name, 'targets/race_c20.cpp', d, std=std, kind='tsan', engine=True)
 
 
 def check_C20(tier, seed, t0):
     cases, procs = budget(tier, (3000, 8), (40000, 12))
-    jobs = [{'unit': race_unit(), 'cases': cases, 'maxlen': 30, 'label': '#%d' % i} for i in range(procs)]
+    # a quarter of the processes run the C++20 build (three-way comparison operators have their own code there)
+    jobs = [{'unit': race_unit('20' if i % 4 == 3 else '17'), 'cases': cases, 'maxlen': 30, 'label': '#%d' % i} for i in range(procs)]
     part = interp_part('C20', 'tsan_reader_programs', jobs, seed, C20_RULE, True)
     return finish('C20', tier, seed, 'exploration', [part], C20_RULE,
                   ['schedules are sampled, not owned: ThreadSanitizer detects unsynchronised conflicting accesses by happens-before analysis within its history window',
@@ -697,7 +701,7 @@ def all_units():
         us += [vec_unit(n, s) for n in C.VEC_MULTISTD]
     us += [fs_unit(n) for n, _ in C.FS_CONFIGS]
     us += [fault_unit(n) for n, _ in FAULT_CONFIGS] + [fault_unit(n, sd) for n, sd in FAULT_MULTISTD]
-    us += c15_units() + [race_unit()] + c13_units() + c13_std_units() + bfs_units() + [enum_unit('exh_c10', 'targets/exh_c10.cpp'), enum_unit('exh_c08', 'targets/exh_c08.cpp'), enum_unit('static_c14', 'targets/static_c14.cpp'), enum_unit('alloc_c06', 'targets/alloc_c06.cpp')]
+    us += c15_units() + [race_unit(), race_unit('20')] + c13_units() + c13_std_units() + bfs_units() + [enum_unit('exh_c10', 'targets/exh_c10.cpp'), enum_unit('exh_c08', 'targets/exh_c08.cpp'), enum_unit('static_c14', 'targets/static_c14.cpp'), enum_unit('alloc_c06', 'targets/alloc_c06.cpp')]
     from . import c16
     us += [c16.unit(cfg, b) for cfg in c16.VEC + c16.FS + c16.SS for b in c16.QUICK_BUILDS if not (cfg in c16.SS and b[0] in ('11', '14'))]
     us += [enum_unit('exh_c12', 'targets/exh_c12.cpp'), enum_unit('growth_c18', 'targets/growth_c18.cpp', kind='plain'),
